@@ -85,6 +85,10 @@ CHECKS["C24"] = dict(engine="tlc+vh", level="model_checking", ref="4.13", techni
                      text="Monotone / EffIsMin / LateOnlyIfBelow are TLC invariants over all observe/advance sequences in the bound and are evaluated by TLC on the per-source watermarks, effective watermark and drop decisions recorded from the real tracker and engine.",
                      note="Trusted: TLC, create_checkpoint() as the observation of the engine's tracker. Bounded: 3 sources, out-of-orderness 0/1/2 s, lateness 1 s, <= 10 generated / 100 recorded calls.")
 
+CHECKS["C15"] = dict(engine="tlc+vh", level="model_checking", ref="4.7", technique="TLA+ spec (Join.tla) three-valued reference; TLC-generated arrival sequences (dense and window-boundary steps, in-order and disordered) replayed into JoinBuffer and an engine join; recorded outputs validated by TLC (JoinTrace.tla)",
+                     text="For every recorded arrival TLC evaluates the reference on the recorded stream: no spurious output, the required pick per source, and an output wherever the statement requires one on in-order streams; missing outputs after disorder are the recorded finding.",
+                     note="Trusted: TLC. Bounded: 2 sources, 2 keys, 50 ms time unit, window 1 s, <= 16 arrivals. Entries later than the arriving event: either.")
+
 NOT_APPLICABLE = {
     "C41": "parser totality over arbitrary strings: no state/transition system to specify; a TLA+ model would only enumerate token strings (fuzzing under another name)",
     "C43": "LSP handler robustness over arbitrary text/cursor: per-call robustness, no protocol state in the property; outside model-based verification",
